@@ -383,6 +383,48 @@ def c_handle_function_c01(P):
     VF.handle_function_driver(P, "C01")
 
 
+# =========================================================================== names bound by an assignment statement
+ASG = "_griffe.agents.nodes.assignments:"
+
+
+@contract("C01", "nodes.get_names.per_target", [ASG + "_get_assign_names", ASG + "get_name"], floor=3, replay="replay_visitor")
+def c_get_assign_names(P):
+    """One arbitrary target of `t1 = t2 = ... = value`, from any list of names collected so far: a plain name contributes its identifier, an attribute chain
+    rooted at a name its dotted text, a target that cannot be named (subscript, tuple, call result ...) contributes nothing -- and only nothing: the
+    targets written before and after it are still bound by the statement, no target ends the loop, nothing raises."""
+    P.expects["clause"] = "handle_attribute"
+    KIND = z3.Function("TARGET_KIND", IntS, IntS)        # 0 name, 1 attribute of a name, 2 something that cannot be named
+    IDF = z3.Function("TARGET_ID", IntS, StrS)
+    ATTR = z3.Function("TARGET_ATTR", IntS, StrS)
+
+    def mk_target(i):
+        zi = zint(i)
+        P.assume(z3.And(KIND(zi) >= 0, KIND(zi) <= 2, z3.Length(IDF(zi)) > 0))
+        name_node = SObj("ast.Name", {"id": SStr(IDF(zi))}, ident=z3.Function("NAME_NODE", IntS, IntS)(zi), frozen=True)
+        return SUnion([(KIND(zi) == 0, name_node),
+                       (KIND(zi) == 1, SObj("ast.Attribute", {"value": name_node, "attr": SStr(ATTR(zi))}, ident=z3.Function("ATTR_NODE", IntS, IntS)(zi), frozen=True)),
+                       (KIND(zi) == 2, SObj("ast.Subscript", {}, ident=z3.Function("SUB_NODE", IntS, IntS)(zi), frozen=True))])
+    targets = sym_seq(P, "targets", mk_target)
+    node = SObj("ast.Assign", {"targets": targets}, ident=z3.Int("assign_id"), frozen=True)
+    q = ASG + "_get_assign_names"
+
+    def hint_names(P_, nm):
+        return sym_seq(P_, "names_so_far", lambda i: SStr(z3.Function("NAME_SO_FAR", IntS, StrS)(zint(i))))
+
+    def post_body(P_, before, after):
+        n0, n1 = zint(P_.seq_len(P_.to_seq(before["names"]))), zint(P_.seq_len(P_.to_seq(after["names"])))
+        i = zint(before["__itargets"])
+        P_.prove("a_nameable_target_adds_one_name_an_unnameable_one_adds_nothing", n1 == n0 + z3.If(KIND(i) == 2, 0, 1))
+        if P_.branch(KIND(i) != 2):
+            last = P_.seq_at(P_.to_seq(after["names"]), SInt(n0))
+            want = z3.If(KIND(i) == 0, IDF(i), z3.Concat(IDF(i), z3.StringVal("."), ATTR(i)))
+            P_.prove("the_name_added_is_the_targets_text", zstr(last) == want)
+    P.loop_specs[("*", "iter:node.targets")] = dict(mode="inv", name="targets", no_break=True, post_body=post_body, hints={"names": hint_names, "target": lambda P_, nm: None})
+    kind, res = outcome(P, lambda: call(P, q, node))
+    P.prove("never_raises", kind == "ok", exc=(P.resolve_cls(res) if kind == "raise" else ""))
+    P.cover("get_assign_names")
+
+
 # =========================================================================== docstrings: text and line span agree with the source
 GD = "_griffe.agents.nodes.docstrings:get_docstring"
 
